@@ -14,7 +14,11 @@ META = dict(
          "consistency errors. TLC-generated behaviours are replayed on a real regtest node with real signed transactions and real TxIndex, TxoSpenderIndex, "
          "BlockFilterIndex(BASIC) and CoinStatsIndex objects over on-disk databases, driven as the unit tests drive them; after every step every lookup of every "
          "covered block is compared with F, the stored filter with a recomputation from block+undo, the filter headers with their chaining rule, and the "
-         "index MuHash with a MuHash3072 computed in the harness over the model's UTXO set in a different insertion order.",
+         "index MuHash with a MuHash3072 computed in the harness over the model's UTXO set in a different insertion order. The flat-file store of the filter "
+         "index (next position, roll-over to the next file at the size limit, truncate, recorded position per entry, DB_FILTER_POS) is part of the model with the "
+         "limit as a constant (invariant: the bytes at the recorded position of every covered / by-hash block are its filter; the order 'record the position before "
+         "the roll-over' is re-derived as a counterexample), and the real 16 MiB limit is crossed on the real index with ~95 kB filters (180 blocks), followed by a "
+         "reorg across the roll-over and a restart, comparing LookupFilter / LookupFilterHeader / LookupFilterRange / LookupFilterHashRange with recomputed filters.",
     note="MuHash arithmetic and the GCS byte encoding are observed for agreement only (element *sets* and UTXO *sets* come from the model). Index sync is driven "
          "synchronously (Sync(), queue drained after every step); a restart in the middle of a sync is reached as 'index stopped, chain moves on, index "
          "re-created from its committed locator'. The universe has three script classes, so filter element sets are small. Known weakness (reported, see "
@@ -84,7 +88,14 @@ def run(ctx):
     quick = ctx.tier == "quick"
     # 1. TLC decides the invariants exhaustively on a small bounded model (in parallel with the generation of behaviours)
     nsim = 1 if quick else 4
-    with concurrent.futures.ThreadPoolExecutor(max_workers=1 + nsim) as ex:
+    upath0 = os.path.join(ctx.work, "universe0.json")
+    json.dump({}, open(upath0, "w"))
+    with concurrent.futures.ThreadPoolExecutor(max_workers=3 + nsim) as ex:
+        # the flat-file layer of the block filter index across its real 16 MiB roll-over (runs beside the TLC work)
+        jobs = [dict(rollovers=1, reorg=True, restart=True)] if quick else [dict(rollovers=2, reorg=True, restart=True), dict(rollovers=1, reorg=False, restart=True), dict(rollovers=1, reorg=True, restart=False)]
+        fut_roll = ex.submit(ctx.run_harness, binary, "rollover", jobs, args=[upath0], name="rollover", nproc=len(jobs))
+        # recording the position before the roll-over must break FilterBytesAgree in the model: re-derive the counterexample
+        fut_pos = ex.submit(ctx.tlc, "Index", "MC_index", "MC_posfirst.cfg", name="posfirst", workers=1, expect_violation=True, emit=False, timeout=2400)
         fut_mc = ex.submit(ctx.tlc, "Index", "MC_index", "MC_tiny.cfg" if quick else "MC_three.cfg", name="mc", workers=2 if quick else 4, timeout=2400)
         # several single-threaded simulations (distinct -aril) in parallel in the thorough tier
         futs = [ex.submit(behaviours, ctx, "Sim_four.cfg", "sim%d" % i, (50, 12) if quick else (120, 14), aril=(None if quick else i)) for i in range(nsim)]
@@ -94,6 +105,20 @@ def run(ctx):
         for f in futs:
             r, t, universe = f.result()
             tests += t
+        rr = fut_pos.result()
+        if rr.violated != "FilterBytesAgree":
+            raise vflib.InfraError("recording the filter position before the roll-over should violate FilterBytesAgree in the model, got %s" % rr.violated)
+        roll = fut_roll.result()
+    rs = roll["summary"]
+    ctx.evaluations += int(rs.get("filter_lookups_compared", 0)); ctx.traces += int(rs["tests"])
+    ctx.extra["filter_file_rollover"] = dict(jobs=jobs, rollovers=int(rs.get("rollovers", 0)), big_blocks=int(rs["steps"]), lookups_compared=int(rs.get("filter_lookups_compared", 0)),
+                                             reorgs_across_rollover=int(rs.get("reorgs_across_rollover", 0)), restarts_after_rollover=int(rs.get("restarts_after_rollover", 0)))
+    if not rs.get("rollovers") and not roll["mismatches"] and not roll["aborts"]:
+        raise vflib.InfraError("vacuity: the filter file never rolled over")
+    for j in jobs:
+        ctx.nontrivial.add("rollover:" + vflib.digest(j))
+    vflib.report_mismatches(ctx, binary, "rollover", roll, args=[upath0], adapter="indexes", what_prefix="Index (filter file roll-over): ",
+                            key_fn=lambda m, case: "rollover:" + vflib.digest((m.get("why") or "")[:50]))
     ctx.extra["directed_scenarios"] = [t["init"]["scenario"] for t in directed]
     tests = directed + tests
     if not quick:
